@@ -205,18 +205,20 @@ func (e Engine) Exec(sci interface{}, opt harness.ExecOpts) *harness.Outcome {
 				srcs[i] = p.Render()
 			}
 		}
-		var shared *py.Code
+		// The parallel phase comes FIRST and gets its own freshly compiled code
+		// object: anything a code object initialises lazily on first use must
+		// be initialised while the contexts run concurrently, not beforehand
+		// by the solo runs.
+		var shared, sharedSolo *py.Code
 		if sc.Shared {
 			shared, _ = py.Compile(srcs[0], "<prog>", py.ExecMode, 0, true)
+			sharedSolo, _ = py.Compile(srcs[0], "<prog>", py.ExecMode, 0, true)
 		}
 		type res struct {
 			t []string
 			e string
 		}
 		solo := make([]res, len(srcs))
-		for i := range srcs {
-			solo[i].t, solo[i].e = runOne(srcs[i], shared)
-		}
 		par := make([]res, len(srcs))
 		var wg sync.WaitGroup
 		for i := range srcs {
@@ -228,6 +230,9 @@ func (e Engine) Exec(sci interface{}, opt harness.ExecOpts) *harness.Outcome {
 			}()
 		}
 		wg.Wait()
+		for i := range srcs {
+			solo[i].t, solo[i].e = runOne(srcs[i], sharedSolo)
+		}
 		for i := range srcs {
 			if d := pyhost.DiffTrace(par[i].t, solo[i].t); d != "" || par[i].e != solo[i].e {
 				out.Violate("context-observes-another-context", "race|leak", "context %d in parallel differs from its solo run: %s (exc %q / %q)", i, d, par[i].e, solo[i].e)
